@@ -32,7 +32,7 @@ PROBES = ["split_one", "split_divisor", "split_nondivisor", "split_equal_n", "sp
           "join_fractional_offset", "join_same_second", "join_crosses_midnight", "join_feature_pruned",
           "join_adjacent_missing", "join_ancillary_input", "join_of_products", "join_5_inputs", "join_time_shifted",
           "join_frame_shifted", "join_logs_compared", "nonscalar_compared", "roundtrip_reproduced", "tz_not_utc",
-          "input_restamped_after_join"]
+          "input_restamped_after_join", "ragged_input", "ragged_split_judged", "split_rerun_after_interruption", "split_rerun_refused"]
 COMPONENTS = {
     "real": ["dclab.cli.split", "dclab.cli.join", "dclab export.hdf5 / RTDCWriter", "dclab RTDC_HDF5 reader incl. ancillary "
              "features and basins", "time.strptime/mktime of the C library under the run's TZ", "h5py/HDF5 on tmpfs"],
@@ -228,7 +228,8 @@ class World:
 
     # ---------------- generation ----------------
     def gen_op(self, r):
-        usable = [i for i, f in enumerate(self.files) if not f["tainted"]]
+        usable_split = [i for i, f in enumerate(self.files) if not f["tainted"]]
+        usable = [i for i in usable_split if not self.files[i].get("ragged")]
         nmade = sum(1 for f in self.files if f["kind"] == "made")
         if len(usable) < 2 or (nmade < 6 and r.random() < 0.3):
             return self.gen_make(r)
@@ -238,9 +239,13 @@ class World:
             return {"k": "restamp", "src": r.choice(usable), "date": date, "time": tm, "run": run}
         x = r.random()
         if x < 0.27:
-            i = r.choice(usable)
+            i = r.choice(usable_split)
             N = self.files[i]["n"]
-            return {"k": "split", "src": i, "n": pick_split_n(r, N), "skip_i": r.random() < 0.5, "skip_f": r.random() < 0.5}
+            op = {"k": "split", "src": i, "n": pick_split_n(r, N), "skip_i": r.random() < 0.5, "skip_f": r.random() < 0.5}
+            if r.random() < 0.15 and -(-N // op["n"]) >= 3:
+                # the first attempt is interrupted by an I/O error when it starts on part m; then split runs again
+                op["interrupt"] = r.randint(2, min(4, -(-N // op["n"])))
+            return op
         if x < 0.45:
             i = r.choice(usable)
             N = self.files[i]["n"]
@@ -315,7 +320,9 @@ class World:
                 "zero_first": r.random() < 0.25, "zero_last": r.random() < 0.25,
                 "nan": r.choice(["none", "none", "some", "one", "first"]), "special": r.random() < 0.2,
                 "logs": r.choice([0, 1, 1, 2, 3]), "long_logs": r.random() < 0.3, "tables": r.choice([0, 0, 1]),
-                "traces": names, "comp": r.choice(["zstd", "zstd", "none"])}
+                "traces": names, "comp": r.choice(["zstd", "zstd", "none"]),
+                # the last events lack their trace / mask (features of different lengths: dclab limits exports to the shortest)
+                "ragged": r.choice([0, 0, 0, 0, 0, 0, 0, 1, 2])}
 
     # ---------------- execution ----------------
     def execute(self, op):
@@ -374,7 +381,21 @@ class World:
                 m.feats["image"][-1] = 0
         path = self.dir / (self.newname("m") + ".rtdc")
         gen.write_model(m, path, compression=op["comp"])
-        rec = self.register(path, "made", data=dict(m.feats), logs={k: list(v) for k, v in m.logs.items()})
+        d = int(op.get("ragged") or 0)
+        short = "trace" if "trace" in m.feats else ("mask" if "mask" in m.feats else None)
+        extra = None
+        if d and short and n - d >= 1 and sorted(m.feats)[0] not in ("trace", "mask"):
+            import h5py
+            with h5py.File(path, "a") as h:
+                for ds_ in ([h["events"][short]] if short == "mask" else list(h["events"]["trace"].values())):
+                    ds_.resize(n - d, axis=0)
+            if short == "mask":
+                m.feats["mask"] = m.feats["mask"][:n - d]
+            else:
+                m.feats["trace"] = {k: v[:n - d] for k, v in m.feats["trace"].items()}
+            extra = {"ragged": d}
+            ctx.probe("ragged_input")
+        rec = self.register(path, "made", data=dict(m.feats), logs={k: list(v) for k, v in m.logs.items()}, extra=extra)
         if rec["innate"] != sorted(m.feats) or rec["n"] != n:
             raise RuntimeError(f"generator: written file offers {rec['innate']} (n={rec['n']}), model {sorted(m.feats)} (n={n})")
         ctx.state_ops += 1
@@ -413,6 +434,9 @@ class World:
             if skip_f and not np.any(img[N - 1]):
                 keep[N - 1] = False
                 applied[1] = True
+        if rec.get("ragged"):
+            # exports are limited to the length of the shortest feature
+            keep[N - int(rec["ragged"]):] = False
         windows = []
         for a in range(0, N, n):
             idx = np.arange(a, min(N, a + n))
@@ -433,13 +457,42 @@ class World:
         outdir = self.dir / self.newname(tag)
         outdir.mkdir()
         ctx.state("split", cls, skip_i, skip_f, applied[0], applied[1], rec["kind"])
-        with ctx.sut("C09.split.raises", sig={"what": "split_raises", "empty_part": empty_part}, fatal=False) as s:
+        rerun = False
+        if op.get("interrupt"):
+            import dclab.rtdc_dataset.export as exmod
+            orig_hdf5 = exmod.Export.hdf5
+            calls = [0]
+
+            def failing(self_, *a, **kw):
+                calls[0] += 1
+                if calls[0] == int(op["interrupt"]):
+                    raise OSError(5, "injected: I/O error")
+                return orig_hdf5(self_, *a, **kw)
+            exmod.Export.hdf5 = failing
+            try:
+                with warnings.catch_warnings():
+                    warnings.simplefilter("ignore")
+                    cli.split(path_in=rec["path"], path_out=outdir, split_events=n, skip_initial_empty_image=skip_i,
+                              skip_final_empty_image=skip_f, ret_out_paths=True)
+            except Exception:
+                rerun = True
+                ctx.fault("split_interrupted")
+                ctx.probe("split_rerun_after_interruption")
+            finally:
+                exmod.Export.hdf5 = orig_hdf5
+        ragged = bool(rec.get("ragged"))
+        allow = ((OSError,) if rerun else ()) + ((ValueError,) if ragged else ())
+        with ctx.sut("C09.split.raises", sig={"what": "split_raises", "empty_part": empty_part}, fatal=False,
+                     allow=allow or None) as s:
             with warnings.catch_warnings():
                 warnings.simplefilter("ignore")
                 paths = cli.split(path_in=rec["path"], path_out=outdir, split_events=n, skip_initial_empty_image=skip_i,
                                   skip_final_empty_image=skip_f, ret_out_paths=True)
         ctx.state_ops += 1
         if s.exc is not None:
+            if rerun:
+                # refusing to run over the remains of the interrupted attempt is safe
+                ctx.probe("split_rerun_refused")
             ctx.log("a", f"split {rec['name']} n={n} skip={skip_i},{skip_f} raised {type(s.exc).__name__}")
             return None
         ctx.probe({"one": "split_one", "gt": "split_greater_n", "eq": "split_equal_n", "div": "split_divisor",
@@ -476,6 +529,25 @@ class World:
             if pn > 10:
                 ctx.probe("split_multi_chunk_part")
             parts.append({"path": p, "n": pn, "data": pdata})
+        if ragged:
+            # features of different lengths: dclab limits every export to the shortest feature, so events ARE given up (and
+            # a part that ends up empty makes split raise).  What the statement still implies is judged: no part larger
+            # than requested (above), no event twice, order kept.
+            ctx.probe("ragged_split_judged")
+            fu = [f for f in rec["innate"] if f in SCALARS and f != "index" and np.asarray(rec["data"][f]).dtype.kind == "f"
+                  and len(np.unique(rec["data"][f])) == len(rec["data"][f]) and not np.isnan(rec["data"][f]).any()]
+            if fu and parts and all(fu[0] in p["data"] for p in parts):
+                orig = np.asarray(rec["data"][fu[0]])
+                pos = {float(v): i for i, v in enumerate(orig)}
+                got = np.concatenate([np.asarray(p["data"][fu[0]], dtype=float) for p in parts])
+                where = [pos.get(float(v), -1) for v in got]
+                ctx.checked()
+                if any(w < 0 for w in where) or any(b <= a for a, b in zip(where, where[1:])):
+                    ctx.violation("C09.split.events", f"parts of {rec['name']} (features of different lengths, N={N}, n={n}, part sizes "
+                                  f"{[p['n'] for p in parts]}) hold events twice or out of order: original positions {where[:20]}",
+                                  sig=dict(sig, feat="ragged"))
+            ctx.log("a", f"split {rec['name']} n={n} ragged parts={[p['n'] for p in parts]}")
+            return None
         want = [w for w in windows if len(w)]
         ctx.checked()
         if len(parts) != len(want) or (not empty_part and len(paths) != -(-N // n)):
@@ -637,7 +709,12 @@ class World:
                 out_logs = {name: [str(v) for v in ds.logs[name]] for name in sorted(ds.logs.keys())}
         total = sum(x["n"] for x in srt)
         ctx.checked()
-        if N != total:
+        tn_ = [tuple(sorted(x["data"]["trace"])) for x in srt if "trace" in x["data"]]
+        if "trace" in out_innate and len(set(tn_)) > 1:
+            # inputs whose trace channels differ contradict each other (the product's traces are of different lengths and the
+            # event count follows the alphabetically first one): counted, not judged - see join_trace_names_differ
+            pass
+        elif N != total:
             ctx.violation("C09.join.count", f"{descr}: product has {N} events, the inputs {total}", sig=sig)
         # (a) every written feature is available in every input
         for f in out_innate:
@@ -755,7 +832,7 @@ class World:
         ins = []
         for i in op["srcs"]:
             rec = self.files[i % len(self.files)]
-            if rec["tainted"] or any(rec is x for x in ins):
+            if rec["tainted"] or rec.get("ragged") or any(rec is x for x in ins):
                 continue
             ins.append(rec)
         ins = ins[:5]
@@ -771,7 +848,7 @@ class World:
             return
         rec = self.files[op["src"] % len(self.files)]
         n = int(op["n"])
-        if rec["tainted"] or n < 1 or -(-rec["n"] // n) > MAX_PARTS:
+        if rec["tainted"] or rec.get("ragged") or n < 1 or -(-rec["n"] // n) > MAX_PARTS:
             self.ctx.count("skipped_roundtrip")
             return
         parts = self.run_split(rec, op, "r")
